@@ -2,6 +2,10 @@
 """seeded_run.py <seeded-dir> [props...] — apply seeded/<x>/patch.diff to /repo's working tree, run the quick check of
 each property (from meta.json 'breaks_properties' unless given), restore the tree, and record the outcome in meta.json."""
 import json, os, subprocess, sys, time
+# REPO_DIR / VERIF_DIR: a scratch worktree of /repo and a copy of /verif whose harness depends on it (tools/seeded_lanes.py);
+# by default the real /repo and /verif
+REPO = os.environ.get("REPO_DIR", "/repo")
+VERIF = os.environ.get("VERIF_DIR", "/verif")
 d = os.path.abspath(sys.argv[1])
 meta_p = os.path.join(d, "meta.json")
 meta = json.load(open(meta_p)) if os.path.exists(meta_p) else {}
@@ -9,20 +13,23 @@ props = sys.argv[2:] or meta.get("breaks_properties", [])
 tier = os.environ.get("TIER", "quick")
 def sh(cmd, timeout=7200):
     return subprocess.run(cmd, shell=True, stdout=subprocess.PIPE, stderr=subprocess.STDOUT, text=True, timeout=timeout)
-assert not sh("git -C /repo status --short").stdout.strip(), "/repo working tree is not clean"
-ap = sh(f"git -C /repo apply {d}/patch.diff")
+assert not sh(f"git -C {REPO} status --short").stdout.strip(), f"{REPO} working tree is not clean"
+ap = sh(f"git -C {REPO} apply {d}/patch.diff")
+if ap.returncode:
+    # later commits touched neighbouring lines: retry with reduced context
+    ap = sh(f"git -C {REPO} apply -C1 {d}/patch.diff")
 if ap.returncode:
     print("patch does not apply:", ap.stdout[-300:]); sys.exit(2)
 res = meta.setdefault("check_results", {})
 try:
     for p in props:
         t0 = time.time()
-        r = sh(f"cd /verif && ./check {p} {tier}")
+        r = sh(f"cd {VERIF} && ./check {p} {tier}")
         sigs = [l.strip()[len("signature: "):] for l in r.stdout.split("\n") if l.strip().startswith("signature:")]
         res[f"{p}:{tier}"] = {"exit": r.returncode, "signatures": sigs[:5], "wall_s": round(time.time() - t0, 1),
                               "inconclusive": [l[:200] for l in r.stdout.split("\n") if l.startswith("INCONCLUSIVE")][:2]}
         print(os.path.basename(d), p, tier, "exit", r.returncode, sigs[:2])
 finally:
-    sh("git -C /repo reset -q --hard HEAD")
+    sh(f"git -C {REPO} reset -q --hard HEAD")
 meta["caught_by"] = sorted({k.split(":")[0] for k, v in res.items() if v["exit"] == 1})
 json.dump(meta, open(meta_p, "w"), indent=1)
